@@ -51,6 +51,17 @@ def run(ctx, R):
         R.check(ok, "r2", "G-ARGS", C.loc(f["sp"]),
                 "interpret_ir must start with `InterpretedQuery::from_query_and_arguments(..)?`: execution indexes the argument map and "
                 "converts values assuming they were validated")
+    # G-ARGS-TABLE: what "validated" means - the audit (and r3's set of admitted operand pairs) assumes that an accepted argument has
+    # exactly the variable's type, integers for Int only, floats for Float only ...: C12's decision tables of
+    # from_query_and_arguments (r1) and Type::is_valid_value (r2), re-evaluated here
+    from . import C12
+    R12 = Report("C12", ctx.tier, 0)
+    C12.run(ctx, R12)
+    bad12 = [v for v in R12.violations if v["rule"] in ("r1", "r2", "engine")]
+    R.check(not bad12, "r2", "G-ARGS-TABLE", "-",
+            "argument validation admits values outside the variable's type (C12 %s): the comparison and conversion code that runs later has no "
+            "arm for such operand pairs (e.g. Float64 vs Int64 reaches unreachable!()) - %s"
+            % ([v["key"] for v in bad12][:3], (bad12[0]["msg"][:300] if bad12 else "")), {"c12_instances": len(R12.instances)})
     # G-CARRIER: re-evaluate C02's bracket rule
     from . import C02
     R2 = Report("C02", ctx.tier, 0)
